@@ -117,6 +117,7 @@ def strategy_(draw, tier):
     spec["requests"] = draw(strat.requests(spec["size"], unit, count=6, points=pts[:64], whole_limit=4 << 20))
     spec["via_minimal"] = draw(strat.minimal_handle())
     spec["fault"] = draw(strat.fault())
+    spec["flavours"] = draw(st.booleans())
     spec["sector_requests"] = [[o // 512, max(1, min(n, 1 << 20) // 512)] for o, n in spec["requests"][:2]]
     return spec
 
